@@ -47,90 +47,134 @@ InitFor(i) ==
 
 Init == \E i \in DOMAIN Charts : InitFor(i)
 
-M0 == [m EXCEPT !.atoms = <<>>]        \* every call starts with no atoms
-
 (***************************************************************************)
-(* Outcomes of step().  Each is a guard G_x and an effect E_x yielding      *)
+(* Outcomes of step().  Each is a guard G_x and an effect E_x over a state  *)
+(* record S = [life, flags, m] and the chart c, yielding the next           *)
 (* [life, flags, m, ret].  The guards are mutually exclusive and complete,  *)
-(* in the order in which step() tests them.                                 *)
+(* in the order in which step() tests them.  (They are parameterised so     *)
+(* that executors with a coarser step -- generated C, Promela -- can be     *)
+(* specified as iterations of the same function, see StepUntilEffective.)   *)
 (***************************************************************************)
 Result(l, f, mm, r) == [life |-> l, flags |-> f, m |-> mm, ret |-> r]
+Z(S) == [S.m EXCEPT !.atoms = <<>>]        \* every call starts with no atoms
 
 AfterMicro(f, mm) ==   \* flags after a micro-step was taken
     ((f \ {"STABLE"}) \cup {"SPONT"}) \cup (IF mm.topfinal THEN {"TOPFINAL"} ELSE {})
 
 \* first call: InterpreterImpl::init()
-G_Initialize == life = "instantiated"
-E_Initialize == Result("initialized", flags, M0, "INITIALIZED")
+G_Initialize(S) == S.life = "instantiated"
+E_Initialize(c, S) == Result("initialized", S.flags, Z(S), "INITIALIZED")
 
-G_FinishedAgain == life = "finished"
-E_FinishedAgain == Result("finished", flags, M0, "FINISHED")
+G_FinishedAgain(S) == S.life = "finished"
+E_FinishedAgain(c, S) == Result("finished", S.flags, Z(S), "FINISHED")
 
 \* exitInterpreter(): top-level final reached or cancel seen
-G_Complete == life = "running" /\ "TOPFINAL" \in flags
-E_Complete ==
-    LET M1 == [M0 EXCEPT !.atoms = <<Atom("completion", <<>>, 0)>>]
-    IN  Result("finished", flags, ExitInterpreter(C, M1), "FINISHED")
+G_Complete(S) == S.life = "running" /\ "TOPFINAL" \in S.flags
+E_Complete(c, S) ==
+    LET M1 == [Z(S) EXCEPT !.atoms = <<Atom("completion", <<>>, 0)>>]
+    IN  Result("finished", S.flags, ExitInterpreter(c, M1), "FINISHED")
 
 \* enter the initial configuration
-G_EnterInitial == life = "initialized"
-E_EnterInitial ==
-    LET M1 == EnterInitialStates(C, M0)
+G_EnterInitial(S) == S.life = "initialized"
+E_EnterInitial(c, S) ==
+    LET M1 == EnterInitialStates(c, Z(S))
     IN  Result("running", AfterMicro({}, M1), M1, "MICROSTEPPED")
 
-Running == life = "running" /\ "TOPFINAL" \notin flags
+Running(S) == S.life = "running" /\ "TOPFINAL" \notin S.flags
 
 \* selectEventlessTransitions; micro-step or end of the eventless round
-G_Eventless == Running /\ "SPONT" \in flags
-E_Eventless ==
-    LET r == SelectTransitions(C, M0, NoEvent)
+G_Eventless(S) == Running(S) /\ "SPONT" \in S.flags
+E_Eventless(c, S) ==
+    LET r == SelectTransitions(c, Z(S), NoEvent)
     IN  IF r.T # <<>>
-        THEN LET M1 == Microstep(C, r.M, r.T)
-             IN  Result("running", AfterMicro(flags, M1), M1, "MICROSTEPPED")
-        ELSE Result("running", flags \ {"SPONT", "STABLE"}, r.M, "MICROSTEPPED")
+        THEN LET M1 == Microstep(c, r.M, r.T)
+             IN  Result("running", AfterMicro(S.flags, M1), M1, "MICROSTEPPED")
+        ELSE Result("running", S.flags \ {"SPONT", "STABLE"}, r.M, "MICROSTEPPED")
 
 \* dequeue an internal event
-G_Internal == Running /\ "SPONT" \notin flags /\ m.iq # <<>>
-E_Internal ==
-    LET e  == Head(m.iq)
-        M1 == [M0 EXCEPT !.iq = Tail(@),
-                         !.atoms = <<Atom("deq", e.name, 0)>>]
-        r  == SelectTransitions(C, M1, OnEvent(e.name))
+G_Internal(S) == Running(S) /\ "SPONT" \notin S.flags /\ S.m.iq # <<>>
+E_Internal(c, S) ==
+    LET e  == Head(S.m.iq)
+        M1 == [Z(S) EXCEPT !.iq = Tail(@),
+                           !.atoms = <<Atom("deq", e.name, 0)>>]
+        r  == SelectTransitions(c, M1, OnEvent(e.name))
     IN  IF r.T # <<>>
-        THEN LET M2 == Microstep(C, r.M, r.T)
-             IN  Result("running", AfterMicro(flags, M2), M2, "MICROSTEPPED")
-        ELSE Result("running", flags \ {"STABLE"}, r.M, "MICROSTEPPED")
+        THEN LET M2 == Microstep(c, r.M, r.T)
+             IN  Result("running", AfterMicro(S.flags, M2), M2, "MICROSTEPPED")
+        ELSE Result("running", S.flags \ {"STABLE"}, r.M, "MICROSTEPPED")
 
 \* macrostep complete: stable configuration is announced once
-G_MacrostepEnd == Running /\ "SPONT" \notin flags /\ m.iq = <<>> /\ "STABLE" \notin flags
-E_MacrostepEnd ==
-    Result("running", flags \cup {"STABLE"},
-           [M0 EXCEPT !.atoms = <<Atom("stable", <<>>, 0)>>], "MACROSTEPPED")
+G_MacrostepEnd(S) == Running(S) /\ "SPONT" \notin S.flags /\ S.m.iq = <<>> /\ "STABLE" \notin S.flags
+E_MacrostepEnd(c, S) ==
+    Result("running", S.flags \cup {"STABLE"},
+           [Z(S) EXCEPT !.atoms = <<Atom("stable", <<>>, 0)>>], "MACROSTEPPED")
 
-Quiescent == Running /\ "SPONT" \notin flags /\ m.iq = <<>> /\ "STABLE" \in flags
+Quiescent(S) == Running(S) /\ "SPONT" \notin S.flags /\ S.m.iq = <<>> /\ "STABLE" \in S.flags
 
 \* dequeue an external event; the empty event enqueued by cancel() only unblocks
-G_External == Quiescent /\ m.eq # <<>>
-E_External ==
-    LET e  == Head(m.eq)
-        M1 == [M0 EXCEPT !.eq = Tail(@),
-                         !.atoms = <<Atom("deq", e.name, 1)>>]
-        r  == SelectTransitions(C, M1, OnEvent(e.name))
+G_External(S) == Quiescent(S) /\ S.m.eq # <<>>
+E_External(c, S) ==
+    LET e  == Head(S.m.eq)
+        M1 == [Z(S) EXCEPT !.eq = Tail(@),
+                           !.atoms = <<Atom("deq", e.name, 1)>>]
+        r  == SelectTransitions(c, M1, OnEvent(e.name))
     IN  IF e.name = <<>>
-        THEN IF "CANCELLED" \in flags
-             THEN Result("running", flags \cup {"TOPFINAL"}, [M0 EXCEPT !.eq = Tail(@)], "CANCELLED")
-             ELSE Result("running", flags, [M0 EXCEPT !.eq = Tail(@)], "IDLE")
+        THEN IF "CANCELLED" \in S.flags
+             THEN Result("running", S.flags \cup {"TOPFINAL"}, [Z(S) EXCEPT !.eq = Tail(@)], "CANCELLED")
+             ELSE Result("running", S.flags, [Z(S) EXCEPT !.eq = Tail(@)], "IDLE")
         ELSE IF r.T # <<>>
-        THEN LET M2 == Microstep(C, r.M, r.T)
-             IN  Result("running", AfterMicro(flags, M2), M2, "MICROSTEPPED")
-        ELSE Result("running", flags \ {"STABLE"}, r.M, "MICROSTEPPED")
+        THEN LET M2 == Microstep(c, r.M, r.T)
+             IN  Result("running", AfterMicro(S.flags, M2), M2, "MICROSTEPPED")
+        ELSE Result("running", S.flags \ {"STABLE"}, r.M, "MICROSTEPPED")
 
 \* cancel() was requested: mark for finalisation
-G_CancelSeen == Quiescent /\ m.eq = <<>> /\ "CANCELLED" \in flags
-E_CancelSeen == Result("running", flags \cup {"TOPFINAL"}, M0, "CANCELLED")
+G_CancelSeen(S) == Quiescent(S) /\ S.m.eq = <<>> /\ "CANCELLED" \in S.flags
+E_CancelSeen(c, S) == Result("running", S.flags \cup {"TOPFINAL"}, Z(S), "CANCELLED")
 
-G_Idle == Quiescent /\ m.eq = <<>> /\ "CANCELLED" \notin flags
-E_Idle == Result("running", flags, M0, "IDLE")
+G_Idle(S) == Quiescent(S) /\ S.m.eq = <<>> /\ "CANCELLED" \notin S.flags
+E_Idle(c, S) == Result("running", S.flags, Z(S), "IDLE")
+
+\* step() as a function of the state
+StepOf(c, S) ==
+    CASE G_Initialize(S)    -> E_Initialize(c, S)
+      [] G_FinishedAgain(S) -> E_FinishedAgain(c, S)
+      [] G_Complete(S)      -> E_Complete(c, S)
+      [] G_EnterInitial(S)  -> E_EnterInitial(c, S)
+      [] G_Eventless(S)     -> E_Eventless(c, S)
+      [] G_Internal(S)      -> E_Internal(c, S)
+      [] G_MacrostepEnd(S)  -> E_MacrostepEnd(c, S)
+      [] G_External(S)      -> E_External(c, S)
+      [] G_CancelSeen(S)    -> E_CancelSeen(c, S)
+      [] G_Idle(S)          -> E_Idle(c, S)
+
+NameOf(S) ==
+    CASE G_Initialize(S)    -> "Initialize"
+      [] G_FinishedAgain(S) -> "FinishedAgain"
+      [] G_Complete(S)      -> "Complete"
+      [] G_EnterInitial(S)  -> "EnterInitial"
+      [] G_Eventless(S)     -> "EventlessRound"
+      [] G_Internal(S)      -> "InternalRound"
+      [] G_MacrostepEnd(S)  -> "MacrostepEnd"
+      [] G_External(S)      -> "ExternalRound"
+      [] G_CancelSeen(S)    -> "CancelSeen"
+      [] G_Idle(S)          -> "Idle"
+
+(* Executors with a coarser step (generated C: uscxml_step() returns only    *)
+(* after a micro-step was taken, or when idle / done): iterate StepOf until  *)
+(* a call took transitions, concatenating the atoms of the silent calls.     *)
+TookMicrostep(r) == \E i \in 1..Len(r.m.atoms) : r.m.atoms[i].a \in {"enter", "exit", "take"}
+
+RECURSIVE StepUntilEffective(_, _, _, _)
+StepUntilEffective(c, S, acc, fuel) ==
+    LET r == StepOf(c, S)
+        atoms == acc \o r.m.atoms
+        S2 == [life |-> r.life, flags |-> r.flags, m |-> r.m]
+    IN  IF r.ret \in {"IDLE", "FINISHED", "CANCELLED"} \/ TookMicrostep(r) \/ fuel = 0
+        THEN [life |-> r.life, flags |-> r.flags, m |-> [r.m EXCEPT !.atoms = atoms], ret |-> r.ret]
+        ELSE StepUntilEffective(c, S2, atoms, fuel - 1)
+
+\* the current state as a record
+Cur == [life |-> life, flags |-> flags, m |-> m]
 
 Apply(r) ==
     /\ life' = r.life
@@ -142,45 +186,24 @@ Apply(r) ==
                           r.m.atoms[i].a = "enter" /\ r.m.atoms[i].x = <<C.states[Root].id>>})
     /\ UNCHANGED ci
 
-Initialize    == G_Initialize    /\ Apply(E_Initialize)
-FinishedAgain == G_FinishedAgain /\ Apply(E_FinishedAgain)
-Complete      == G_Complete      /\ Apply(E_Complete)
-EnterInitial  == G_EnterInitial  /\ Apply(E_EnterInitial)
-EventlessRound == G_Eventless    /\ Apply(E_Eventless)
-InternalRound == G_Internal      /\ Apply(E_Internal)
-MacrostepEnd  == G_MacrostepEnd  /\ Apply(E_MacrostepEnd)
-ExternalRound == G_External      /\ Apply(E_External)
-CancelSeen    == G_CancelSeen    /\ Apply(E_CancelSeen)
-Idle          == G_Idle          /\ Apply(E_Idle)
+Initialize    == G_Initialize(Cur)    /\ Apply(E_Initialize(C, Cur))
+FinishedAgain == G_FinishedAgain(Cur) /\ Apply(E_FinishedAgain(C, Cur))
+Complete      == G_Complete(Cur)      /\ Apply(E_Complete(C, Cur))
+EnterInitial  == G_EnterInitial(Cur)  /\ Apply(E_EnterInitial(C, Cur))
+EventlessRound == G_Eventless(Cur)    /\ Apply(E_Eventless(C, Cur))
+InternalRound == G_Internal(Cur)      /\ Apply(E_Internal(C, Cur))
+MacrostepEnd  == G_MacrostepEnd(Cur)  /\ Apply(E_MacrostepEnd(C, Cur))
+ExternalRound == G_External(Cur)      /\ Apply(E_External(C, Cur))
+CancelSeen    == G_CancelSeen(Cur)    /\ Apply(E_CancelSeen(C, Cur))
+Idle          == G_Idle(Cur)          /\ Apply(E_Idle(C, Cur))
 
 Step == \/ Initialize \/ FinishedAgain \/ Complete \/ EnterInitial
         \/ EventlessRound \/ InternalRound \/ MacrostepEnd
         \/ ExternalRound \/ CancelSeen \/ Idle
 
 \* the same as a function, for the batch validators
-StepResult ==
-    CASE G_Initialize    -> E_Initialize
-      [] G_FinishedAgain -> E_FinishedAgain
-      [] G_Complete      -> E_Complete
-      [] G_EnterInitial  -> E_EnterInitial
-      [] G_Eventless     -> E_Eventless
-      [] G_Internal      -> E_Internal
-      [] G_MacrostepEnd  -> E_MacrostepEnd
-      [] G_External      -> E_External
-      [] G_CancelSeen    -> E_CancelSeen
-      [] G_Idle          -> E_Idle
-
-StepName ==
-    CASE G_Initialize    -> "Initialize"
-      [] G_FinishedAgain -> "FinishedAgain"
-      [] G_Complete      -> "Complete"
-      [] G_EnterInitial  -> "EnterInitial"
-      [] G_Eventless     -> "EventlessRound"
-      [] G_Internal      -> "InternalRound"
-      [] G_MacrostepEnd  -> "MacrostepEnd"
-      [] G_External      -> "ExternalRound"
-      [] G_CancelSeen    -> "CancelSeen"
-      [] G_Idle          -> "Idle"
+StepResult == StepOf(C, Cur)
+StepName == NameOf(Cur)
 
 (***************************************************************************)
 (* Environment                                                              *)
